@@ -2083,6 +2083,13 @@ impl CanonicalizeContext {
 			if following_mi_siblings.is_empty() {
 				return None;
 			}
+
+			// an 'arg' or 'intent' on one of the letters means the author treats it as an operand of its own
+			//   (e.g., <mrow intent='f($m)'><mi>t</mi><mi arg='m'>r</mi></mrow>) -- merging would delete the element the reference points to
+			if std::iter::once(&mi).chain(following_mi_siblings.iter())
+					.any(|child| child.attribute("arg").is_some() || child.attribute(INTENT_ATTR).is_some()) {
+				return None;
+			}
 		
 			for &child in &following_mi_siblings {   // referenced to avoid a move
 				let mut chars = as_text(child).chars();
